@@ -57,6 +57,7 @@ let rec pact t : act =
   | "anon" -> let h = pn t in AAnon (h, pn t)
   | "store" -> AStore (pn t)
   | "droph" -> ADropH (pn t)
+  | "pdrop" -> ADropH (pn t)   (* dropped while unwinding from a caught panic: the same semantics *)
   | "slabadd" -> let h = pn t in let a = pn t in ASlabAdd (h, a, pnotif t)
   | "slablen" -> ASlabLen
   | "iszombie" -> AIsZombie (pn t)
